@@ -511,6 +511,7 @@ def shards(tier):
         for lo in range(0, 2048, step):
             out.append({'section': 'dp', 'sign': s, 'elo': lo, 'ehi': lo + step, 'k': k})
     out += [{'section': 'c2', 'w': w} for w in range(1, 11)]
+    out += [{'section': 'sequence'}]
     # special widths / wide formats with boundary values only
     out += [{'section': 'c2', 'w': w, 'corner': 1} for w in ((15, 16, 17, 31, 32, 33, 63, 64, 65, 127, 128) if T else (16, 31, 32, 33, 63, 64, 65))]
     out += [{'section': 'fixed', 'fmt': list(f), 'corner': 1} for f in
@@ -534,8 +535,44 @@ def cost(d):
     return 10
 
 
+def _run_sequences(d):
+    """the helpers are functions of their argument only: the same call must give the same answer whatever was
+    converted before it in the same process (all orders of a small set of values that compare equal / are neighbours)"""
+    import itertools
+    import struct
+    from py4hw.helper import FloatingPointHelper as H
+    acc = Acc('sequence', d)
+    vals = [0.0, -0.0, 1.0, -1.0, 5e-324, -5e-324]
+
+    def ref(fn, v):
+        if fn == 'sp':
+            return struct.unpack('<I', struct.pack('<f', v))[0]
+        return struct.unpack('<Q', struct.pack('<d', v))[0]
+    calls = [('sp', H.sp_to_ieee754), ('dp', H.dp_to_ieee754)]
+    for perm in itertools.permutations(range(len(vals)), 3):
+        for name, fn in calls:
+            seq = [vals[i] for i in perm]
+            got = []
+            for v in seq:
+                ok, r = _call(fn, v)
+                got.append(r if ok else 'exc')
+            exp = [ref(name, v) for v in seq]
+            acc.evals += 1
+            acc.nontriv += 1
+            acc.outcomes.add(tuple(got))
+            if got != exp:
+                acc.fail('%s_to_ieee754_depends_on_earlier_calls' % name, 'order',
+                         {'section': 'sequence', 'fn': name, 'values': [repr(v) for v in seq]},
+                         {'values': [repr(v) for v in seq], 'got': [hex(g) if isinstance(g, int) else g for g in got],
+                          'expected': [hex(e) for e in exp]})
+    acc.sample = {'section': 'sequence', 'values': [repr(v) for v in vals], 'orders': 'all ordered triples'}
+    return acc.result()
+
+
 def run_shard(d):
     sec = d['section']
+    if sec == 'sequence':
+        return _run_sequences(d)
     if sec == 'hp':
         return _run_patterns(d, 'hp', range(d['slice'] << 12, (d['slice'] + 1) << 12))
     if sec in ('sp', 'dp'):
@@ -554,6 +591,10 @@ def replay(v):
     case = v['trace'][0]
     check = v['detail']['check']
     sec = case['section']
+    if sec == 'sequence':
+        r = _run_sequences({'section': 'sequence'})
+        hit = [x for x in r['violations'] if x['sig'] == v['sig']]
+        return {'case': case, 'violates': bool(hit), 'failures': hit[:1]}
     if sec == 'pattern':
         fails, obs = pattern_checks(case['fmt'], case['bits'])
     elif sec == 'c2':
